@@ -117,7 +117,7 @@ def run(ctx):
         if rc != 0 or not lines:
             msg = "driver rc=%s %s" % (rc, err[-200:])
         else:
-            unc = [l for l in lines if l.startswith("SIZE-BELOW-N")]
+            unc = [l for l in lines if l.startswith("SIZE-BELOW-N")] + ["an element changed its address during growth: " + l for l in lines if l.startswith("MOVED")]
             v = [int(x) for x in lines[-1].split()]
             size, recs = v[0], sorted(zip(v[1::3], v[2::3], v[3::3]))
             pos = 0
